@@ -62,6 +62,7 @@ type FuncCtx struct {
 	curLoopIdx     []types.Object
 	globals        map[*types.Var]Val
 	pcParts        map[string][]string
+	namedFuns      map[string]bool
 	pcAnd          map[string][2]string // pc name -> (narrowed pc, narrowing conditions)
 	nclosure       int
 	heapInit       map[string]Term
